@@ -662,7 +662,23 @@ class QGen:
         special_seq = [m for cls in self.s.classes for m in self.s.classes[cls].methods if m.kind == "num" and (m.enum or m.tree_type)]
         if special_seq:
             opts.append((2, "typed-leaf-seq"))
+        if self.f.first and not self.safe and fuel > 1 and not self.noflat:
+            opts.append((2, "first-of-seqs"))
         k = self.weighted(opts)
+        if k == "first-of-seqs":
+            # the first element of a sequence of sequences: a 1-D column holding the inner sequence of the first object only
+            os_ = self.objseq(scope, 0)
+            if os_ is not None:
+                v = self.newvar(scope, "j")
+                self.noflat += 1
+                inner = self.unbare(self.bind(scope, v, TObj(os_[1])), self.numseq(self.bind(scope, v, TObj(os_[1])), 0))
+                self.noflat -= 1
+                if inner is not None:
+                    self.labels.add("First")
+                    self.labels.add("First-of-sequences")
+                    self.nops += 2
+                    return (f"{os_[0]}.Select(lambda {v}: {inner[0]}).First()", TSeq(TNum(inner[1])))
+            k = "seq"
         if k == "typed-leaf-seq":
             os_ = self.objseq(scope, fuel - 1)
             ms = [m for m in self.s.classes[os_[1]].methods if m.kind == "num" and (m.enum or m.tree_type)] if os_ else []
